@@ -720,6 +720,8 @@ SOLVER_SPECS = {
     'direct': ('solver_direct_scipy', {}),
     'cg': ('solver_iter_cg', {'maxiters': 40}),
     'eigsym': ('solver_eigen_scipy_sym', {}),
+    'pcg': ('solver_iter_pcg', {}),
+    'eig': ('solver_eigen_scipy', {}),
 }
 
 
@@ -1152,6 +1154,19 @@ def do_op(pool, d, mon):
         if d['how'] == 'enforce':
             return canon(list(U.enforce(A, b, x=x, D=D)))
         return canon(list(U.penalize(A, b, x=x, D=D)))
+    if k == 'solve_direct':
+        # the solver closure called directly on long-lived, caller-owned operands (as after condense), twice
+        A, b, D, x = pool.system(d['mesh'], d['elem'])
+        key = ('cs', d['mesh'], d['elem'])
+        if key not in pool.objs:
+            pool.objs[key] = U.condense(A, b, x=x, D=D, expand=False)
+        Kc, fc = pool.objs[key]
+        mon.watch(Kc, 'A'); mon.watch(fc, 'b')
+        s = pool.solver(d['solver'])
+        kw = dict(d.get('kwargs', {}))
+        r1 = s(Kc, fc, **kw)
+        r2 = s(Kc, fc, **kw)
+        return canon([r1, r2, fc])
     if k == 'solve':
         A, b, D, x = pool.system(d['mesh'], d['elem'])
         mon.watch(A, 'A'); mon.watch(b, 'b'); mon.watch(D, 'D'); mon.watch(x, 'x')
@@ -1205,7 +1220,7 @@ def random_op(rng, sub=None):
     if ename in SCALAR_H1:
         kinds += ['mpc']
     if ename in SCALAR_H1:
-        kinds += ['bc', 'solve', 'solve', 'solve']
+        kinds += ['bc', 'solve', 'solve', 'solve', 'solve_direct']
     k = rng.choice(kinds)
     if k == 'conn':
         return {'op': 'conn', 'mesh': mname}
@@ -1245,7 +1260,11 @@ def random_op(rng, sub=None):
         return {'op': 'mpc', 'mesh': mname, 'elem': ename}
     if k == 'bc':
         return {'op': 'bc', 'mesh': mname, 'elem': ename, 'how': rng.choice(['condense', 'enforce', 'penalize'])}
-    sname = rng.choice([None, 'krylov', 'krylov', 'direct', 'cg', 'cg', 'eigsym', 'eigsym'])
+    if k == 'solve_direct':
+        sname = rng.choice(['krylov', 'direct', 'cg', 'pcg'])
+        return {'op': 'solve_direct', 'mesh': mname, 'elem': ename, 'solver': sname,
+                'kwargs': rng.choice([{}, {'maxiters': 3}]) if sname == 'cg' else {}}
+    sname = rng.choice([None, 'krylov', 'krylov', 'direct', 'cg', 'cg', 'eigsym', 'eigsym', 'pcg'])
     kw = {}
     if sname == 'krylov':
         kw = rng.choice([{}, {'atol': 1e-14, 'maxiter': 400}, {'maxiter': 1}, {'atol': 1e-3}])
@@ -1496,6 +1515,98 @@ def _run_refutations(ctx, pending):
                       'model (regenerated key) does not identify: ' + err[-600:])
 
 
+ALL_SOLVERS = ['solver_direct_scipy', 'solver_iter_krylov', 'solver_iter_pcg', 'solver_iter_cg', 'solver_eigen_scipy_sym', 'solver_eigen_scipy']
+
+
+def _spd_system(n, shift=0.0):
+    import scipy.sparse as sp
+    main = 2.0 + shift + 0.1 * np.arange(n)
+    K = sp.diags([main, -np.ones(n - 1), -np.ones(n - 1)], [0, 1, -1], format='csr')
+    M = sp.diags([1.0 + 0.05 * np.arange(n)], [0], format='csr')
+    f = np.cos(np.arange(n) * 0.7) + 1.5
+    return K, M, f
+
+
+def witness_solvers(ctx):
+    """every solver factory of utils.py called DIRECTLY on caller-owned operands: A, b (and M) bit-for-bit unchanged, and a
+    second solve with the same operands gives the same solution"""
+    import skfem.utils as U
+    for name in ALL_SOLVERS:
+        if not hasattr(U, name):
+            continue
+        for n, kw in ((9, {}), (12, {})):
+            K, M, f = _spd_system(n)
+            eig = 'eigen' in name
+            fkw = {'maxiters': 60} if name == 'solver_iter_cg' else {}
+            s = getattr(U, name)(**fkw)
+            ckw = dict(kw)
+            if eig:
+                ckw.update({'k': 3, 'v0': np.ones(n)})
+            ops = [K, (M if eig else f)]
+            mon = Monitor()
+            for lab, o in zip(('A', 'M' if eig else 'b'), ops):
+                mon.watch(o, lab)
+            copies = [K.copy(), ops[1].copy()]
+            data = {'site': 'solver-operands', 'factory': name, 'n': n}
+            ctx.count(('solver-operands', name, n), nontrivial=True)
+            try:
+                r1 = s(*ops, **ckw)
+                ch = mon.changed()
+                r2 = s(*ops, **ckw)
+            except Exception as ex:      # noqa: BLE001 - a well-posed SPD system
+                ctx.fail(f'solver:{name}:exception', f'{name} raised {type(ex).__name__}: {ex} on a small SPD system', data)
+                continue
+            if ch:
+                ctx.fail(f'operand-mutated:solver:{name}', f'{name}()(A, b): the caller\'s operands changed: {ch}', dict(data, changed=ch))
+                continue
+            c1 = canon([np.sort(np.round(np.real(r1[0]), 8))] if eig else r1)
+            c2 = canon([np.sort(np.round(np.real(r2[0]), 8))] if eig else r2)
+            dd = maxdiff(c1, c2)
+            if dd is None or dd > 1e-10:
+                ctx.fail(f'history-dependent:solver:{name}:second-solve-differs', f'{name}: solving twice with the same operands gives different '
+                         f'solutions (max difference {dd})', data)
+            # through solve(), too
+            ref = canon(U.solve(copies[0], copies[1], solver=getattr(U, name)(**fkw), **ckw)) if not eig else None
+            if ref is not None:
+                dd = maxdiff(canon(r1), ref)
+                if dd is None or dd > 1e-10:
+                    ctx.fail(f'history-dependent:solver:{name}:differs-from-fresh', f'{name}: direct call differs from solve() on fresh copies ({dd})', data)
+
+
+def witness_id_reuse(ctx):
+    """an element object that remembers 'the mesh it was last used on' must not confuse it with a LATER mesh that happens to get
+    the same id() after the first one was freed.  Loop: use the element on a mesh, free the mesh, build another mesh of equal
+    size and different geometry; whenever CPython reuses the id, compare with a fresh element object."""
+    import gc
+    import skfem
+    X = np.array([[0.25, 0.5], [0.25, 0.125]])
+    tind = np.array([0, 1])
+    stats = {'iterations': 0, 'id_reuses_exercised': 0}
+    for ecls in (skfem.ElementTriMorley, skfem.ElementTriArgyris):
+        el = ecls()
+        old_id = None
+        for k in range(50):
+            g = np.array([0.0, 1.0 + 0.125 * (k % 7), 3.0 + 0.25 * (k % 5)])
+            m = skfem.MeshTri.init_tensor(g, g[::-1].cumsum() * 0 + np.array([0.0, 2.0 - 0.125 * (k % 3), 3.0]))
+            stats['iterations'] += 1
+            reused = old_id is not None and id(m) == old_id
+            got = el.gbasis(m._mapping(), X, 1, tind=tind)[0].value.copy()
+            if reused:
+                stats['id_reuses_exercised'] += 1
+                exp = ecls().gbasis(m._mapping(), X, 1, tind=tind)[0].value
+                ctx.count(('id-reuse', ecls.__name__, k), nontrivial=True)
+                if not np.allclose(got, exp, rtol=1e-12, atol=1e-12):
+                    ctx.fail('cache:ElementGlobal.V:stale-after-mesh-id-reuse',
+                             f'{ecls.__name__}: a mesh created after the previous one was freed got the same id(); the element serves the '
+                             'inverse Vandermonde matrix of the FREED mesh', {'site': 'id-reuse', 'element': ecls.__name__, 'iteration': k,
+                                                                            'got': jsonable(got), 'expected': jsonable(exp)})
+                    break
+            old_id = id(m)
+            del m
+            gc.collect()
+    ctx.extra['mesh_id_reuse'] = stats
+
+
 def witness_views(ctx):
     """results handed out earlier must not change later: one ElementLinePp / ElementQuadP object, a basis b1 on quadrature Q1
     (arrays checksummed, matrix assembled), then the SAME element object evaluated at other point sets of equal size (a second
@@ -1549,6 +1660,8 @@ def search(ctx):
     wit = {}
     # ---------------- results handed out earlier must survive later evaluations of the same element object (runs first)
     witness_views(ctx)
+    witness_solvers(ctx)
+    witness_id_reuse(ctx)
     # ---------------- (a) two-step witnesses per site (always run; cheap)
     w = witness_pointcache(ctx, 'linepp')
     if w:
@@ -1759,6 +1872,10 @@ def replay(ctx, data):
             ctx.fail(data['key'], data['what'], inp)
     elif site == 'views':
         witness_views(ctx)
+    elif site == 'solver-operands':
+        witness_solvers(ctx)
+    elif site == 'id-reuse':
+        witness_id_reuse(ctx)
     elif site in ('constructor', 'constructor-derived'):
         search_constructors(ctx)
     else:
